@@ -33,6 +33,8 @@ func TestWorker(t *testing.T) {
 	crash := sim.Engine{Run: runCrash, Nontrivial: func(c *sim.Ctx) bool { return c.Counters["crash.states"] >= 4 }}
 	sim.WorkerMain(t, map[string]sim.Engine{
 		"C08": crash,
+		"C24": {Run: runBookkeeping, Nontrivial: func(c *sim.Ctx) bool { return c.Counters["probe.bookkeeping_compared"] >= 5 }},
+		"C25": {Run: runIntroGate, Nontrivial: func(c *sim.Ctx) bool { return c.Step >= 5 }},
 		"C33": {Run: runSync, Nontrivial: func(c *sim.Ctx) bool {
 			return c.Counters["probe.blocks_appended_from_givb"] >= 1 && faultCount(c) >= 1
 		}},
